@@ -194,6 +194,9 @@ func (self Value) Field(id thrift.FieldID) (v Value) {
 	if f == nil {
 		return errValue(meta.ErrUnknownField, fmt.Sprintf("field id %d is not defined in IDL", id), nil)
 	}
+	if n.Type() != f.Type().Type() {
+		return errValue(meta.ErrDismatchType, fmt.Sprintf("field '%s' expects type %s, buf got type %s", f.Name(), f.Type().Type(), n.Type()), nil)
+	}
 
 	return wrapValue(n, f.Type())
 }
@@ -285,13 +288,23 @@ ret:
 	return
 }
 
+// wrapElem pairs an element node with the element descriptor of its container,
+// unless the bytes declare another element type than the descriptor
+func (self Value) wrapElem(n Node) Value {
+	et := self.Desc.Elem()
+	if et != nil && n.Type() != et.Type() {
+		return errValue(meta.ErrDismatchType, fmt.Sprintf("element expects type %s, buf got type %s", et.Type(), n.Type()), nil)
+	}
+	return wrapValue(n, et)
+}
+
 // Index returns a sub node at the given index from a LIST value.
 func (self Value) Index(i int) (v Value) {
 	n := self.Node.Index(i)
 	if n.IsError() {
 		return wrapValue(n, nil)
 	}
-	return wrapValue(n, self.Desc.Elem())
+	return self.wrapElem(n)
 }
 
 // GetByStr returns a sub node at the given string key from a MAP value.
@@ -300,7 +313,7 @@ func (self Value) GetByStr(key string) (v Value) {
 	if n.IsError() {
 		return wrapValue(n, nil)
 	}
-	return wrapValue(n, self.Desc.Elem())
+	return self.wrapElem(n)
 }
 
 // GetByInt returns a sub node at the given int key from a MAP value.
@@ -309,7 +322,7 @@ func (self Value) GetByInt(key int) (v Value) {
 	if n.IsError() {
 		return wrapValue(n, nil)
 	}
-	return wrapValue(n, self.Desc.Elem())
+	return self.wrapElem(n)
 }
 
 // func (self Value) GetMany(pathes []PathNode, opts *Options) error {
